@@ -362,3 +362,27 @@ def c11_11(ctx, r):
             r.check(not hs, f"{caller}: a failure of {callee.split('.')[-1]}() propagates", key_of(fn, f"swallows a failed {callee.split('.')[-1]}"), s.loc,
                     f"{caller} catches {what} around {callee.split('.')[-1]}() and goes on: when the status update fails after batches were handed to the HPC, the round still removes its marker and releases the role, "
                     "with the jobs recorded as not_submitted - the next round submits them again", "no job handed to the HPC twice ... later invocations refuse to act")
+
+
+@rule(P, "C11.12", "T4", "every file the results code writes is closed before the function returns (a failed flush raises there, not in a finaliser)", min_obligations=3)
+def c11_12(ctx, r):
+    """_move_results deletes a node file right after _append_processed_results returned.  A write error (quota, full disk) surfaces when the
+    buffered data is flushed - at close.  With `with open(...)` the close happens inside the function and the error propagates: the node file
+    is kept and the next sweep moves it.  A file left to the garbage collector is flushed in its finaliser, where the error is swallowed; the
+    rows are then in neither file.  Decided: every open() for writing/appending in ResultsAggregator is the context expression of a `with`."""
+    cls = ctx.cls("ResultsAggregator", "C11.12")
+    n = 0
+    for m in cls.methods.values():
+        withs = {id(it.context_expr) for w in iter_own(m.node) if isinstance(w, ast.With) for it in w.items}
+        for c in iter_own(m.node):
+            if not (isinstance(c, ast.Call) and ctx.src(c.func) == "open"):
+                continue
+            mode = c.args[1] if len(c.args) > 1 else next((k.value for k in c.keywords if k.arg == "mode"), None)
+            if not (isinstance(mode, ast.Constant) and isinstance(mode.value, str) and set(mode.value) & set("wa+x")):
+                continue
+            n += 1
+            r.check(id(c) in withs, f"{m.short}: the written file is managed by `with`", key_of(m, "file written without with"), m.loc(c),
+                    f"{m.short} opens `{ctx.src(c)}` for writing outside a `with`: the data is flushed when the object is collected, and a write error at that point is silently dropped - the caller goes on "
+                    "(deletes the node file it just 'moved'), and the results exist nowhere", "every result produced so far remains on disk")
+    if n < 3:
+        raise AnalysisError("C11.12", f"{n} writing open() calls found in ResultsAggregator")
